@@ -306,9 +306,23 @@ Proof.
 Qed.
 
 (* must-occur check: depends only on which codes occur, so it is insensitive to element order and to [canon] *)
+Lemma canon_nil : forall val s, canon val s VNil = VNil.
+Proof. induction s; cbn [canon]; auto. Qed.
+
+Lemma canon_not_nil : forall val s v, v <> VNil -> canon val s v <> VNil.
+Proof. induction s; intros v Hv; destruct v; cbn [canon]; try congruence; try discriminate; auto. Qed.
+
+Lemma elem_code_ptr : forall s v, v <> VNil -> elem_code (SPtr s) v = elem_code s v.
+Proof. intros s v Hv. destruct v; try congruence; reflexivity. Qed.
+
 Lemma elem_code_canon : forall val e v, elem_code e (canon val e v) = elem_code e v.
 Proof.
-  induction e; intros v; destruct v; cbn [canon elem_code]; try reflexivity; try apply IHe.
+  induction e; intros v.
+  8: { assert (Hn : v = VNil \/ v <> VNil) by (destruct v; auto; right; discriminate).
+       destruct Hn as [-> | Hv]; cbn [canon].
+       - rewrite canon_nil. reflexivity.
+       - rewrite !elem_code_ptr by auto using canon_not_nil. apply IHe. }
+  all: destruct v; cbn [canon elem_code]; try reflexivity.
   all: try (destruct ty; reflexivity).
 Qed.
 
